@@ -21,7 +21,7 @@ import (
 	"verif/vk"
 )
 
-const c04Rule = "closed-loop scenarios with the simulated counterparty: numbered application and admin messages sent with generated losses (also before the Logon), ResendRequests answered by PossDup replays and merged gap fills in generated arrival order (replay first / live first / mixed), chunk sizes {0,1,2,3,5,8}, both end markers, timer events in between; plus two real-time scenarios in which the replay arrives after the kept messages have become older than MaxLatency; non-trivial = an episode with a live message stashed during recovery, or >=2 chunks, or a gap on the Logon; distinct = distinct scenario history"
+const c04Rule = "closed-loop scenarios with the simulated counterparty: numbered application and admin messages sent with generated losses (also before the Logon), ResendRequests answered by PossDup replays and merged gap fills in generated arrival order (replay first / live first / mixed), chunk sizes {0,1,2,3,5,8}, both end markers, timer events in between; plus two real-time scenarios in which the replay arrives after the kept messages have become older than MaxLatency, message events handled while the connection's writer cannot take a frame; non-trivial = an episode with a live message stashed during recovery, or >=2 chunks, or a gap on the Logon; distinct = distinct scenario history"
 
 func c04() *stats.Collector {
 	c := stats.Get("C04")
@@ -272,6 +272,9 @@ func c04Property(t *rapid.T) {
 	drawExtras(t, c, &cfg)
 	draw789(t, c, &cfg)
 	s := newSim(t, c, cfg)
+	if rapid.IntRange(0, 2).Draw(t, "writer-sometimes-busy") == 0 {
+		s.busyWriter = func() bool { return rapid.IntRange(0, 2).Draw(t, "writer-busy") == 0 }
+	}
 	defer s.close()
 	mon := &c04mon{feat: map[string]bool{}, kept: map[int]bool{}, dropped: map[int]bool{}}
 	s.after = append(s.after, mon.after)
